@@ -561,6 +561,68 @@ def replay_of(sc, res):
             'flag_writes': res.flags[:40], 'marks': {k: v for k, v in res.marks.items()}}
 
 
+# ---------------------------------------------------------------- bystanders (real threads, real time)
+def bystander_runs(chk, stats, net, clock_mod, jc_mod, settings_mod, ScriptJob):
+    """"A stop affects only the run it was aimed at": a background script sits in its timed
+    delays while a queued script is stopped (or simply ends).  Production bindings
+    (`clock.configure()`), real threads, real `Clock` with a 10 ms tick; the bystander's k-th
+    command must not come earlier than the sum of its first k delays (minus one tick), whatever
+    happens to the other script."""
+    import time as _time
+    from bardolph.lib import injection, i_lib
+    clock_mod.configure()
+    settings_mod.Settings._the_config['sleep_time'] = 0.01
+    delay = 0.25
+    bystander = 'units logical time {} hue 10 set all hue 20 set all hue 30 set all'.format(delay)
+    cases = [('stop_current', 'repeat begin on all end'), ('stop_job', 'repeat begin on all end'),
+             ('ends-by-itself', 'on all off all'), ('stop-in-delay', 'time 5 on all off all'),
+             ('stop-in-time-at', 'time at 23:59 on all')]
+    real_log = net.log
+    for kind, other in cases:
+        t0 = [None]
+        sent = []
+
+        def log(label, method, args, outcome):
+            real_log(label, method, args, outcome)
+            if method == 'set_color_all_lights' or method == 'set_color':
+                sent.append(_time.monotonic() - t0[0])
+        net.log = log
+        try:
+            jc = jc_mod.JobControl()
+            job_b = ScriptJob.from_string(bystander)
+            job_a = ScriptJob.from_string(other)
+            t0[0] = _time.monotonic()
+            jc.spawn_job(job_b, 'bystander')
+            jc.add_job(job_a, 'A')
+            _time.sleep(0.08)
+            if kind == 'stop_job':
+                jc.stop_job('A')
+            elif kind != 'ends-by-itself':
+                jc.stop_current()
+            deadline = _time.monotonic() + 5
+            while (jc.is_running('bystander') or jc.has_jobs()) and _time.monotonic() < deadline:
+                _time.sleep(0.02)
+            hung = jc.is_running('bystander') or jc.has_jobs()
+            jc.stop_background()
+            jc.stop_current()
+        finally:
+            net.__dict__.pop('log', None)
+        chk.count()
+        stats['bystander_runs'] = stats.get('bystander_runs', 0) + 1
+        early = [(k + 1, round(t, 3)) for k, t in enumerate(sent) if t < (k + 1) * delay - 0.02]
+        if early or len(sent) != 3 or hung:
+            chk.violation('stop-disturbs-another-run',
+                          'while script A ({}) was handled by `{}`, the background script (three commands, {} s '
+                          'apart) sent its commands at {} s{}'.format(
+                              other, kind, delay, [round(t, 3) for t in sent],
+                              ' and did not finish' if hung else ''),
+                          {'kind': kind, 'other_script': other, 'bystander_script': bystander,
+                           'sent_at': sent, 'how': 'real threads and clock; see harness/c09.py bystander_runs'})
+        else:
+            chk.nontrivial_case(('bystander', kind))
+    injection.bind(clock_mod.Clock).to(i_lib.Clock)
+
+
 # ---------------------------------------------------------------- main
 def main():
     chk = Check('C09')
@@ -694,6 +756,7 @@ def main():
     stats['model_labels'] = sum(len(r[0][1]) - 1 for r in requests)
     stats['model_disagreements'] = n_dis
 
+    bystander_runs(chk, stats, net, clock_mod, jc_mod, settings_mod, ScriptJob)
     chk.coverage['distribution'] = stats
     chk.coverage['rule'] = (
         'one run = one script shape x one kind of stop request x one schedule through the real '
